@@ -51,24 +51,26 @@ ASSUMPTIONS = [
     "single-threaded: to_exit status WAKE (cross-thread exit) is C14's",
 ]
 EVIDENCE_NOTES = [
-    "evl_backends_agree (agreement of the three back-ends on every script of class S) is NOT proved.  Proved part "
-    "(evl_backends_agree_partial): a visit - read callback with its triggered actions, flagging, close callback and "
-    "removal - transforms the shared state identically in the three back-ends while the poll table has room; missing: the "
-    "confluence argument that the different visit orders of select (list order), poll (reverse slot order, early break) and "
-    "epoll (ready-list order) give the same outcomes for scripts in S.  The monitor checks agreement on every generated S "
-    "script (140 per quick run, 2400 per thorough run), and evl_backends_agree_refuted shows it fails outside S.",
-    "evl_read_called_when_pending is proved per batch for epoll only (evl_read_called_when_pending_partial); for select and "
-    "poll the missing step is that the walk reaches every registered context in the pass; for poll it is false in one pass "
-    "when an fd reports POLLIN and POLLHUP together (n decremented twice): evl_poll_skipped_slot_untouched and the example "
-    "poll_double_decrement_skips_one_pass show the skipped slot keeps registration and data and is reported again by the "
-    "next level-triggered poll(): a one-pass delay, not a loss, hence no patch; combined with an exit requested in that "
-    "same pass it falls in the racing-exit part of the known finding.  The monitor checks the per-pass rule on every run.",
-    "class S as proved/checked is narrower than DESIGN.md's sketch, because the real loops are order-sensitive in more ways: "
+    "evl_backends_agree is proved for the FLAT sub-class of S (evl_backends_agree_partial / evl_flat_outcome): scripts "
+    "without read-callback triggers - every write / half-close / close / add / wake-up is issued before run() or from an "
+    "idle phase (the wake callback at quiescence), any number of phases, three descriptor kinds -, no scripted exit or "
+    "shutdown, adds fitting hints_max_fd: each back-end, on the model's kernel function, ends with the outcome of a "
+    "back-end-free specification (every registered context offered every byte written to it; closed iff its peer "
+    "terminated, else cleared).  NOT proved: scripts of S whose read callbacks issue actions (triggers); for those the "
+    "proved part is evl_backends_agree_visit (a visit transforms the shared state identically in the three back-ends) and "
+    "the monitor checks agreement on every generated S script (160 per quick run incl. 20 flat ones, 2600 per thorough run); "
+    "evl_backends_agree_refuted shows agreement fails outside S",
+    "evl_read_called_when_pending is proved for the three back-ends; for poll modulo the double decrement of n for an fd "
+    "reporting POLLIN and POLLHUP together: read in this pass, or the slot is untouched and the context is reported readable "
+    "again by the next kernel call (examples poll_double_decrement_skips_one_pass, read_poll_second_alternative): a one-pass "
+    "delay, not a loss, hence no patch; combined with an exit requested in that same pass it falls in the racing-exit part "
+    "of the known finding",
+    "class S as checked is narrower than DESIGN.md's sketch, because the real loops are order-sensitive in more ways: "
     "no scripted exit (the loop exits at quiescence), self-shutdown only once everything the script can send has been read, "
     "a peer terminated from a callback gets all its callback-issued writes from that same context, contexts <= hints_max_fd",
-    "defect found and repaired (fixes/C13-select-stale-fd.patch): the select back-end left the fd of a context that was added "
-    "and closed in the same pass in allset (EBADF -> the loop exited unasked); the model has the repaired behaviour "
-    "(evl_add_reject_remove_isolated, part 3)",
+    "defect found and repaired (fixes/C13-select-stale-fd.patch, applied to /repo): the select back-end left the fd of a "
+    "context that was added and closed in the same pass in allset (EBADF -> the loop exited unasked); the model has the "
+    "repaired behaviour (evl_add_reject_remove_isolated, part 3)",
     "the node pool (use_mem_pool) grows on demand (muggle_memory_pool_alloc doubles), so hints_max_fd limits the number of "
     "contexts only in the poll back-end; select and epoll never refuse for capacity (observation)",
 ]
@@ -380,6 +382,11 @@ def generate(rng, tier):
     for i in range(nS):
         nmax = 16 if i % 3 == 0 else (6 if i % 3 == 1 else 3)
         cases.append(_gen_S(rng.fork("S%d" % i), "S-%d" % i, nmax))
+    # the flat sub-class of S (no triggers): the one evl_backends_agree_partial is proved for
+    for i in range(20 if quick else 200):
+        c = _gen_S(rng.fork("F%d" % i), "F-%d" % i, 16 if i % 2 else 5)
+        c.lines = [ln for ln in c.lines if not ln.startswith("on ")]
+        cases.append(c)
     for i in range(nX):
         cases.append(_gen_X(rng.fork("X%d" % i), "X-%d" % i, 16 if i % 2 else 4))
     for i in range(nC):
@@ -741,6 +748,8 @@ def tally(dist, case, lines):
     def inc(k, n=1):
         dist[k] = dist.get(k, 0) + n
     inc("class=%s" % sc.cls)
+    if sc.cls == "S" and not sc.trigs:
+        inc("class=S-flat")
     inc("contexts", len(sc.kinds))
     inc("pool=%d" % sc.pool)
     for k in sc.kinds.values():
@@ -776,8 +785,9 @@ MANIFEST = {
                    "oracle: for every script, every oracle and every number of iterations each back-end closes a "
                    "context at most once, never calls back after close, clears exactly the still-registered contexts "
                    "once, exits once, reads every context the kernel reported; add / capacity-reject / remove leave "
-                   "every other context's registration and data untouched; agreement of the back-ends is proved on a "
-                   "sub-class and refuted in general (known finding cross-shutdown).  Model tied to the code by running "
+                   "every other context's registration and data untouched; agreement of the back-ends is proved for the "
+                   "flat sub-class of S (actions issued from idle phases only) and refuted in general (known finding "
+                   "cross-shutdown).  Model tied to the code by running "
                    "the real loops on real pipes / socket pairs / loopback TCP and feeding the logged kernel reports to "
                    "the extracted model; independent life-cycle/accounting/agreement monitor."),
     "design_ref": "DESIGN.md section 6 / C13, section 5 row C13",
